@@ -8,8 +8,11 @@ import (
 	"sync"
 	"time"
 
+	jd "github.com/josephburnett/jd/v2"
+
 	"verif/mc/engine"
 	"verif/mc/gen"
+	"verif/mc/impl"
 	"verif/mc/ref"
 )
 
@@ -719,4 +722,39 @@ func Large() *TextSet {
 		out = append(out, members(-1), members(7), members(19), members(-1)[:19], append([]interface{}{members(-1)[19]}, members(-1)[:19]...))
 		return NewTextSet(out)
 	})
+}
+
+// Live legs ("start from non-initial states"): a case kind "<id>live|<mode>|<construct>|<options>"
+// asks for operand a (mode A), b (mode B) or both (mode AB) to be the value a caller holds after
+// Patch (impl.Live, built by <construct>) instead of a freshly parsed one. The live value stands
+// in only where it denotes exactly the document of the case; n counts the operands replaced.
+var liveModes = []string{"A", "B", "AB"}
+
+func liveKind(id, mode, construct, opt string) string {
+	return id + "live|" + mode + "|" + construct + "|" + opt
+}
+
+func liveOperands(kind, a, b string) (na, nb jd.JsonNode, opt, construct string, n int, ok bool) {
+	parts := strings.Split(kind, "|")
+	if len(parts) != 4 || !strings.HasSuffix(parts[0], "live") {
+		return nil, nil, "", "", 0, false
+	}
+	mode, construct, opt := parts[1], parts[2], parts[3]
+	na, nb = impl.Read(a), impl.Read(b)
+	sub := func(text string, cur jd.JsonNode) jd.JsonNode {
+		if l, ok := impl.Live(text, construct); ok {
+			if lv, err := impl.ToV(l); err == nil && ref.Equal(lv, ref.MustParse(text), ref.List) {
+				n++
+				return l
+			}
+		}
+		return cur
+	}
+	if strings.Contains(mode, "A") {
+		na = sub(a, na)
+	}
+	if strings.Contains(mode, "B") {
+		nb = sub(b, nb)
+	}
+	return na, nb, opt, construct, n, true
 }
